@@ -9,14 +9,20 @@ DRIVER = "drv_cancel"
 HARNESS_BIN = "cancel"
 HARNESS_FEATURES = ""
 PARTIAL = [
-    "no_stall_partial: proved = (a) no waiter is ever stranded — an occupied computing / backward-projection entry always has a live "
-    "owner that holds it, whatever was cancelled or panicked before (`waiter_has_live_owner`), (b) every live task that is not waiting has "
-    "an enabled step of its own (`running_task_can_step`), (c) a waiter is enabled again as soon as the entry is gone. Missing for the full "
-    "`no_stall` (`C05_full_statement`): acyclicity of the waits-for relation between live tasks (the static-rank argument that belongs to "
-    "C02's deadlock-freedom) and the variant function that bounds every run",
-    "cancel_restores_asis_partial: for the code as it is the quiescent invariant is proved without its batch clause and without the phase "
-    "clause; those two clauses hold for the repaired configuration (`cancel_restores`) and are refuted for the code as it is by the "
-    "witnesses f11_asis_aborts, f12_asis_aborts, f40_asis_session_overlaps_publication (findings F11, F12, F40 of known_findings.d/C05.json)",
+    "no_stall_partial: proved (every configuration, every reachable state) = a task waiting for a computing / backward-projection entry "
+    "can be woken, or the entry has a live owner that holds its guard — whatever was cancelled or panicked before (waiter_has_live_owner, "
+    "bp_waiter_has_live_owner, from entry_has_live_owner); every task that holds a guard and is not waiting has an enabled step "
+    "(running_task_can_step); cancel is enabled at every await (cancel_always_enabled); a task in `caught` can always unwind "
+    "(caught_can_resume). Missing for the full `no_stall` (def C05_full_statement): acyclicity of the waits-for relation between live "
+    "tasks (the static-rank argument, C02's deadlock-freedom) and a variant function that bounds every run",
+    "cancel_restores_asis_partial: for the code as it is (every configuration) the quiescent invariant is proved without its batch "
+    "clause; the batch clause and the phase discipline (session_excludes_queries) hold for the repaired configurations "
+    "(cancel_restores_of_repairs needs f11, f12; session_excludes_queries needs f40) and are refuted for the code as it is by the "
+    "witnesses f11_asis_aborts, f12_original_aborts, f40_asis_session_overlaps_publication (findings F11, F12, F40)",
+    "Q's clause 'every registered callee of a live computation belongs to a read in progress' is modelled (regs, armed undo, "
+    "unregAt / defuseAt) and validated against the code item by item in the drop-glue comparison, but not stated as an invariant theorem",
+    "F41 (a dropped set_input whose continuation runs after commit panics) is outside the model: session calls are atomic model steps; "
+    "it is found and pinned by the harness only",
 ]
 ASSUMPTIONS = [
     "acyclic programs: no strongly connected component is in progress (with `is_in_scc` the engine replaces the panic by the SCC value; C06)",
